@@ -58,12 +58,27 @@ type Op struct {
 	H       int      `json:",omitempty"`
 	Fixed   bool     `json:",omitempty"` // handle created with templ.WithComponent(body) rather than given a block
 	Body    []Op     `json:",omitempty"`
+	// probe templates only: Tag "X" is an element whose attributes sit under attribute-level if/else blocks
+	Attrs []PAttr `json:",omitempty"`
+}
+
+// PAttr is one attribute item of a probe element: Kind "class" (Forms), "on" (S), or "if" (Cond, Then, Else).
+type PAttr struct {
+	Kind  string
+	Forms []Form  `json:",omitempty"`
+	S     *Script `json:",omitempty"`
+	Cond  bool    `json:",omitempty"`
+	Then  []PAttr `json:",omitempty"`
+	Else  []PAttr `json:",omitempty"`
 }
 
 type Cfg struct {
 	Nonce   string
 	MW      bool
 	Classes []Class `json:",omitempty"`
+	// Inst > 0: every context of the history with this Inst is a request through ONE templ.NewCSSMiddleware
+	// instance (created with the Classes of the first such context; the others carry the same Classes).
+	Inst int `json:",omitempty"`
 }
 
 type COp struct {
@@ -74,6 +89,10 @@ type COp struct {
 type Hist struct {
 	Cfgs []Cfg
 	Ops  []COp
+	// Pages: each context is one page request; its uses are rendered inside the request handler, the requests
+	// being served one after the other in context order ("seq") or all at once ("par"). "" = contexts are set up
+	// first and the uses executed in history order.
+	Pages string `json:",omitempty"`
 }
 
 // ---------- tokens for the extracted model ----------
